@@ -226,6 +226,17 @@ def main():
                 shutil.copy(src + "/" + f, d + "/" + f)
         json.dump(meta, open(d + "/meta.json", "w"), indent=1)
         rows.append((name, meta))
+    # entries that are maintained by hand (regression seed of the genuine defect, sanitizer seeds, negative controls)
+    have = {n for n, _ in rows}
+    for mf in sorted(glob.glob("/verif/seeded/*/meta.json")):
+        m = json.load(open(mf))
+        if m["id"] in have:
+            continue
+        m.setdefault("kept", True)
+        m.setdefault("detection", {})
+        m.setdefault("property_broken", "-")
+        m.setdefault("needs_to_manifest", m.get("result", "-"))
+        rows.append((m["id"], m))
     with open("/verif/seeded/INDEX.md", "w") as f:
         f.write("# Seeded changes (each compiles, passes the 129 stable tests, and breaks a property only under a specific condition)\n\n")
         f.write("| id | breaks | change | needs | caught by (quick tier) | not caught by |\n|---|---|---|---|---|---|\n")
